@@ -238,6 +238,8 @@ def show_atom(a):
         return f"Sum[{','.join(i for i, _ in a[1])}]({body})"
     if k in ("paren", "abs", "sign"):
         return f"{'' if k == 'paren' else k}({Poly.thaw(a[1])!r})"
+    if k == "fni":
+        return f"{a[1]}<{abs(hash(a[2])) % 10000}>"
     if k == "fn":
         return f"{a[1]}({', '.join(repr(Poly.thaw(x)) if isinstance(x, tuple) else str(x) for x in a[2])})"
     return repr(a)
@@ -254,7 +256,7 @@ def atom_indices(a):
     k = a[0]
     if k == "var":
         r = frozenset(a[2])
-    elif k in ("sym", "const"):
+    elif k in ("sym", "const", "fni"):
         r = frozenset()
     elif k in ("delta", "offdiag", "lt"):
         r = frozenset(a[1:3])
@@ -526,7 +528,7 @@ def _paren_pow(p, r):
     if cp is None:
         raise Unsupported("non-integer power of a polynomial with negative content")
     if coef < 0:
-        cp = cp * (-1) ** int(r)
+        cp = cp * (Fr(-1) ** int(r))
     return res * cp * Poly.atom(("paren", q.frozen()), r)
 
 
@@ -534,22 +536,31 @@ def _unsup(msg):
     raise Unsupported(msg)
 
 
-def _content(p, allow_sign):
+def _content(p, allow_sign, clear=False):
     """p = coef * pulled_monomial * q  with q canonical (first coefficient +-1 ...): returns (coef, pulled, q)"""
     items = sorted(p.t.items(), key=lambda kv: repr(kv[0]))
     c0 = items[0][1]
     coef = abs(c0)
     if allow_sign and c0 < 0:
         coef = -coef
-    # common positive atoms
-    common = None
+    # positive atoms: pull out the smallest exponent over all monomials (0 where the atom is absent), so that the remaining
+    # polynomial has no negative power of a positive atom and at least one monomial free of each of them
+    atoms = {}
     for m, _ in items:
-        d = {a: e for a, e in m if atom_positive(a) and a[0] != "const"}
-        if common is None:
-            common = d
+        for a, e in m:
+            if atom_positive(a) and a[0] != "const":
+                atoms.setdefault(a, []).append(e)
+    common = {}
+    for a, es in atoms.items():
+        if len(es) == len(items):
+            lo = min(es)
+        elif clear:
+            lo = min(es + [Fr(0)])
         else:
-            common = {a: min(e, d[a]) for a, e in common.items() if a in d}
-    pulled = tuple(sorted(((a, e) for a, e in (common or {}).items() if e != 0), key=lambda t: akey(t[0])))
+            lo = Fr(0)
+        if lo != 0:
+            common[a] = lo
+    pulled = tuple(sorted(common.items(), key=lambda t: akey(t[0])))
     inv = Poly({tuple((a, -e) for a, e in pulled): Fr(1) / coef})
     q = p * inv
     return coef, pulled, q
@@ -579,7 +590,7 @@ def mk_log(p):
 
 def _sign_normal(p):
     """p = s * coef * pulled * q with q's first coefficient positive"""
-    coef, pulled, q = _content(p, allow_sign=True)
+    coef, pulled, q = _content(p, allow_sign=True, clear=True)
     return coef, pulled, q
 
 
@@ -663,13 +674,15 @@ def _sum_mono(bound, m):
     while changed:
         changed = False
         for k, (a, e) in enumerate(factors):
-            if a[0] == "sum" and e == 1 and (atom_indices(a) & bnames) and (
+            if a[0] == "sum" and e.denominator == 1 and 1 <= e <= 4 and (atom_indices(a) & bnames) and (
                     any(d == "K" for _, d in a[1]) or any(dim_of(i) == "N" for i in atom_indices(a) & bnames)):
-                ren = {i: fresh(d) for i, d in a[1]}
-                body = subst(Poly({a[2]: Fr(1)}), ren)
-                inner_bound = [(ren[i], d) for i, d in a[1]]
                 rest = Poly({tuple(factors[:k] + factors[k + 1:]): Fr(1)}) if len(factors) > 1 else Poly.const(1)
-                return mk_sum(bound + inner_bound, rest * body)
+                inner_bound = []
+                for _copy in range(int(e)):
+                    ren = {i: fresh(d) for i, d in a[1]}
+                    rest = rest * subst(Poly({a[2]: Fr(1)}), ren)
+                    inner_bound += [(ren[i], d) for i, d in a[1]]
+                return mk_sum(bound + inner_bound, rest)
     # 2. deltas with a bound index
     for k, (a, e) in enumerate(factors):
         if a[0] == "delta" and (set(a[1:3]) & bnames):
@@ -691,6 +704,21 @@ def _sum_mono(bound, m):
                 if a[0] == "var" and a[1] == SIMPLEX["var"] and e == 1 and len(a[2]) == 2 and a[2][1] == i and a[2][0] != i:
                     rest = [(x, ee) for x, ee in factors if not (x == a and ee == e)]
                     return mk_sum([(j, dd) for j, dd in bound if j != i], Poly({mono_norm(rest)[0]: Fr(1)}))
+    # simplex rule through a nested sum over samples: sum_k Sum_n[y[n,k] * f(n)] = Sum_n[f(n)]
+    if SIMPLEX["on"]:
+        for i, d in bound:
+            if d != "K":
+                continue
+            users = [(k, a, e) for k, (a, e, sdep) in enumerate(dep) if i in sdep]
+            if len(users) == 1 and users[0][1][0] == "sum" and users[0][2] == 1:
+                k, a, e = users[0]
+                inner_users = [(x, ex) for x, ex in a[2] if i in atom_indices(x)]
+                if len(inner_users) == 1 and inner_users[0][0][0] == "var" and inner_users[0][0][1] == SIMPLEX["var"] and inner_users[0][1] == 1 \
+                        and inner_users[0][0][2][1] == i and inner_users[0][0][2][0] in {b for b, _ in a[1]}:
+                    ren = {b: fresh(dd) for b, dd in a[1]}
+                    body = subst(Poly({a[2]: Fr(1)}), ren)
+                    rest = Poly({tuple(factors[:k] + factors[k + 1:]): Fr(1)}) if len(factors) > 1 else Poly.const(1)
+                    return mk_sum(bound + [(ren[b], dd) for b, dd in a[1]], rest * body)
     # stratification: sums over samples are performed innermost (cluster indices free), then the sums over clusters
     bn = [(i, d) for i, d in bound if d == "N"]
     bk = [(i, d) for i, d in bound if d != "N"]
@@ -878,3 +906,148 @@ def is_zero(p):
 
 def equal(a, b):
     return is_zero(a - b)
+
+
+# ------------------------------------------------------------------------------------------------ finite instances
+def cidx(dim, pos):
+    return f"{dim}#{pos}"
+
+
+def instantiate(p, sizes, env=None):
+    """the term at concrete sizes: every sum is written out over the concrete index values, indicators are evaluated.
+    env maps free index names to concrete ones (all free indices must be mapped). Still a symbolic term over the entries."""
+    env = env or {}
+    res = Poly()
+    for m, c in p.t.items():
+        dead = False
+        for a, _e in m:
+            if a[0] in ("delta", "offdiag", "lt"):
+                i, j = env.get(a[1], a[1]), env.get(a[2], a[2])
+                if "#" not in i or "#" not in j:
+                    raise Unsupported(f"free index {a[1]}/{a[2]} not instantiated")
+                pi_, pj_ = int(i.split("#")[1]), int(j.split("#")[1])
+                val = {"delta": pi_ == pj_, "offdiag": pi_ != pj_, "lt": pi_ < pj_}[a[0]]
+                if not val:
+                    dead = True
+        if dead:
+            continue
+        term = Poly.const(c)
+        for a, e in m:
+            if a[0] in ("delta", "offdiag", "lt"):
+                continue
+            term = term * mk_pow(_inst_atom(a, sizes, env), e)
+            if term.is_zero():
+                break
+        res = res + term
+    return res
+
+
+def _inst_atom(a, sizes, env):
+    k = a[0]
+    if k == "var":
+        idx = [env.get(i, i) for i in a[2]]
+        if any("#" not in i for i in idx):
+            raise Unsupported(f"free index in {show_atom(a)} not instantiated")
+        return Poly.atom(mk_var(a[1], idx))
+    if k == "sym":
+        return Poly.const(sizes[a[1]]) if a[1] in sizes else Poly.atom(a)
+    if k == "const":
+        return Poly.atom(a)
+    if k == "log":
+        return mk_log(_inst_atom(a[1], sizes, env))
+    if k == "sum":
+        names = [i for i, _ in a[1]]
+        ranges = [range(sizes[d]) for _, d in a[1]]
+        body = Poly({a[2]: Fr(1)})
+        out = Poly()
+        for combo in itertools.product(*ranges):
+            e2 = dict(env)
+            for (i, d), v in zip(a[1], combo):
+                e2[i] = cidx(d, v)
+            out = out + instantiate(body, sizes, e2)
+        return out
+    if k == "paren":
+        return instantiate(Poly.thaw(a[1]), sizes, env)
+    if k == "abs":
+        return mk_abs(instantiate(Poly.thaw(a[1]), sizes, env))
+    if k == "sign":
+        return mk_sign(instantiate(Poly.thaw(a[1]), sizes, env))
+    if k == "fn":
+        bound = list(a[3]) if len(a) > 3 else []
+        e2 = {x: y for x, y in env.items() if x not in bound}
+        args = []
+        for x in a[2]:
+            if isinstance(x, str):
+                args.append(e2.get(x, x))
+            elif not bound:
+                args.append((instantiate(Poly.thaw(x), sizes, e2).frozen(),))
+            else:
+                d = dim_of(bound[0])
+                vec = []
+                for v in range(sizes[d]):
+                    e3 = dict(e2)
+                    e3[bound[0]] = cidx(d, v)
+                    vec.append(instantiate(Poly.thaw(x), sizes, e3).frozen())
+                args.append(tuple(vec))
+        return Poly.atom(("fni", a[1], tuple(args), tuple(a[4:])))
+    raise Unsupported(f"instantiate {k}")
+
+
+def replace_atoms(p, mapping):
+    """replace atoms by polynomials, everywhere (also inside log / paren / abs / sign)"""
+    res = Poly()
+    for m, c in p.t.items():
+        term = Poly.const(c)
+        for a, e in m:
+            term = term * mk_pow(_replace_atom(a, mapping), e)
+        res = res + term
+    return res
+
+
+def _replace_atom(a, mapping):
+    if a in mapping:
+        return mapping[a]
+    k = a[0]
+    if k == "log":
+        return mk_log(_replace_atom(a[1], mapping))
+    if k == "paren":
+        return replace_atoms(Poly.thaw(a[1]), mapping)
+    if k == "abs":
+        return mk_abs(replace_atoms(Poly.thaw(a[1]), mapping))
+    if k == "sign":
+        return mk_sign(replace_atoms(Poly.thaw(a[1]), mapping))
+    if k == "fni":
+        args = tuple(x if isinstance(x, str) else tuple(replace_atoms(Poly.thaw(fz), mapping).frozen() for fz in x) for x in a[2])
+        return Poly.atom(("fni", a[1], args, a[3]))
+    if k == "fn":
+        raise Unsupported("replace_atoms in a symbolic function atom")
+    if k == "sum":
+        raise Unsupported("replace_atoms under a symbolic sum")
+    return Poly.atom(a)
+
+
+def on_simplex(p, sizes, var="y"):
+    """substitute the last column of the row-stochastic matrix: y[n, K-1] = 1 - sum_{k < K-1} y[n, k]"""
+    mp = {}
+    last = sizes["K"] - 1
+    for n in range(sizes["N"]):
+        rest = Poly.const(1)
+        for k in range(last):
+            rest = rest - Poly.atom(mk_var(var, [cidx("N", n), cidx("K", k)]))
+        mp[mk_var(var, [cidx("N", n), cidx("K", last)])] = rest
+    return replace_atoms(p, mp)
+
+
+def instance_zero(p, free, sizes_list=((2, 2), (3, 2), (2, 3)), simplex=True):
+    """is the term zero at each of the small sizes (for every value of its free indices)? -> (True, None) or (False, witness)"""
+    for n, k in sizes_list:
+        sizes = {"N": n, "K": k}
+        ranges = [range(sizes[dim_of(i)]) for i in free]
+        for combo in itertools.product(*ranges):
+            env = {i: cidx(dim_of(i), v) for i, v in zip(free, combo)}
+            q = instantiate(p, sizes, env)
+            if simplex:
+                q = on_simplex(q, sizes)
+            if not is_zero(q):
+                return False, {"N": n, "K": k, "indices": env, "residual": repr(q)[:300]}
+    return True, None
